@@ -100,7 +100,16 @@ type observation struct {
 	Root   string
 	Mode   string
 	Mem    map[string]string // order ids the in-memory tree holds for the changes it presents
+	AddSeq map[string]uint64 // add sequence of every stored change (0 = the root row)
+	Views  []addSeqView      // the incremental views for every sequence number seen (sampled when there are many)
 	dag    *dag
+}
+
+type addSeqView struct {
+	N       uint64
+	Storage []string // Storage.GetAfterAddSeq(N)
+	Tree    []string // ObjectTree.IterateAfterAddSeq(N)
+	Err     string
 }
 
 func observe(r *replica) (*observation, error) {
@@ -111,6 +120,34 @@ func observe(r *replica) (*observation, error) {
 	o := &observation{Store: ids(st), Orders: map[string]string{}, Iter: r.iter(), Heads: r.heads(), Root: r.rootId(), dag: dagOf(st)}
 	for _, c := range st {
 		o.Orders[c.Id] = c.OrderId
+	}
+	// incremental views: for every n in {0} + the add sequence numbers of the stored changes
+	o.AddSeq = map[string]uint64{}
+	seen := map[uint64]bool{0: true}
+	ns := []uint64{0}
+	for _, c := range st {
+		o.AddSeq[c.Id] = c.AddSeq
+		if !seen[c.AddSeq] {
+			seen[c.AddSeq] = true
+			ns = append(ns, c.AddSeq)
+		}
+	}
+	sort.Slice(ns, func(i, j int) bool { return ns[i] < ns[j] })
+	if len(ns) > 9 { // long histories: the first, the last four and a spread of the others
+		keep := append([]uint64{}, ns[0])
+		for i := 1; i < len(ns)-4; i += (len(ns) - 5 + 3) / 4 {
+			keep = append(keep, ns[i])
+		}
+		ns = append(keep, ns[len(ns)-4:]...)
+	}
+	for _, n := range ns {
+		v := addSeqView{N: n}
+		var verr error
+		v.Storage, v.Tree, verr = r.addSeqViews(n)
+		if verr != nil {
+			v.Err = verr.Error()
+		}
+		o.Views = append(o.Views, v)
 	}
 	o.Mem = map[string]string{}
 	r.tree.Lock()
@@ -136,6 +173,28 @@ func checkObservation(treeId string, o *observation) []verdict {
 			add("order-ids-not-increasing", "order id %q of %s is not above %q", o.Orders[id], id, prev)
 		}
 		prev = o.Orders[id]
+	}
+	// every incremental view (changes added after sequence number n) is the stored = canonical order
+	// restricted to what the view contains
+	for _, v := range o.Views {
+		if v.Err != "" {
+			add("addseq-view-error", "GetAfterAddSeq / IterateAfterAddSeq(%d): %s", v.N, v.Err)
+			continue
+		}
+		var want []string
+		for _, id := range o.Store {
+			if o.AddSeq[id] > v.N {
+				want = append(want, id)
+			}
+		}
+		if !eqSeq(want, v.Storage) {
+			add("addseq-view-not-restriction", "Storage.GetAfterAddSeq(%d) presents %v; the stored order restricted to the changes added after %d is %v", v.N, v.Storage, v.N, want)
+			break
+		}
+		if !eqSeq(want, v.Tree) {
+			add("addseq-view-not-restriction", "ObjectTree.IterateAfterAddSeq(%d) presents %v; the stored order restricted to the changes added after %d is %v", v.N, v.Tree, v.N, want)
+			break
+		}
 	}
 	// the tree works with the order ids that are stored (an id is assigned once)
 	for _, id := range o.Iter {
